@@ -678,6 +678,26 @@ where
     }
 }
 
+/// C16: N consecutive seals with identical key, message, footer: every embedded nonce must be new.
+pub fn fresh<B: Backend, P: Purpose>(rec: &mut Recorder, st: &mut Stats, cfg: &Cfg)
+where
+    B::V: SealingVersion<P>,
+{
+    let purpose = purpose_name::<P>();
+    if purpose != "local" {
+        return; // signatures embed no nonce (deterministic schemes legitimately repeat)
+    }
+    let mut rng = Prng::new(cfg.seed, &format!("c16f-{}-{}", B::NAME, purpose));
+    let kms = key_mats::<B, P>(rec, &mut rng, 1);
+    let km = &kms[0];
+    let n = if cfg.thorough { 20000 } else { 600 };
+    let claims = b"{\"same\":\"message\"}".to_vec();
+    rec.emit(json!({"ev":"Reset","scenario":format!("fresh-{}-{}", B::NAME, purpose)}));
+    for _ in 0..n {
+        seal_lib::<B, P>(rec, st, &km.seal, &claims, &[], &[], (false, false), None);
+    }
+}
+
 pub fn run(rec: &mut Recorder, cfg: &Cfg) -> Stats {
     let mut st = Stats { seals: 0, presentations: 0, leading_zero_sigs: 0, signatures: 0 };
     fn both<B: Backend>(rec: &mut Recorder, st: &mut Stats, cfg: &Cfg) {
@@ -694,6 +714,7 @@ pub fn run(rec: &mut Recorder, cfg: &Cfg) -> Stats {
                 faults::<B, Local>(rec, st, cfg);
                 faults::<B, Public>(rec, st, cfg);
             }
+            "fresh" => fresh::<B, Local>(rec, st, cfg),
             m => panic!("unknown mode {m}"),
         }
     }
